@@ -49,6 +49,15 @@ class Constraint(NamedUIDObject):
         # store this constraint into the current context
         processscheduler.base.active_problem.add_constraint(self)
 
+    def _refuse(self, exception: Exception) -> None:
+        """Raise the exception that refuses this constraint. The constraint was stored
+        into the problem when its construction started: it is removed first, so that a
+        refused constraint leaves nothing behind (its name remains available)."""
+        constraints = processscheduler.base.active_problem.constraints
+        if constraints.get(self.name) is self:
+            del constraints[self.name]
+        raise exception
+
     def set_created_from_assertion(self) -> None:
         """Set the flag created_from_assertion True. This flag must be set to True
         if, for example, a constraint is defined from the expression:
@@ -108,8 +117,10 @@ class ForceApplyNOptionalConstraints(Constraint):
         # actually optional
         for constraint in self.list_of_optional_constraints:
             if not constraint.optional:
-                raise TypeError(
-                    f"The constraint {constraint.name} must explicitly be set as optional."
+                self._refuse(
+                    TypeError(
+                        f"The constraint {constraint.name} must explicitly be set as optional."
+                    )
                 )
 
         # all scheduled variables to take into account
